@@ -893,6 +893,33 @@ def keyset_rotation_cases(mon: Monitor, ctx):
                                   ep_name=ep_name, ep=ep)
 
 
+def mixed_b64_cases(mon: Monitor, ctx):
+    """a general JSON JWS whose signatures disagree about b64 (RFC 7797, 3: it MUST be the same for all of them).  With the payload text "aGVsbG8" the signing
+    input `protected.aGVsbG8` is the same octets for a signer of the text itself (b64: false) and for a signer of "hello" (b64 absent): whoever lets one
+    entry decide for all takes a signature over "hello" for a signature over "aGVsbG8", or the other way round"""
+    j = J.load()
+    text = b"aGVsbG8"
+    for alg_a, alg_b in (("HS256", "ES256"), ("ES256", "HS256"), ("RS256", "EdDSA:Ed25519")):
+        alice = {**key_for(alg_a), "kid": "alice"}
+        bob = {**key_for(alg_b), "kid": "bob"}
+        e_unenc = rjws.json_signature({"alg": alg_name(alg_a), "kid": "alice", "b64": False, "crit": ["b64"]}, None, text, RefKey.from_jwk(alice))
+        e_plain = rjws.json_signature({"alg": alg_name(alg_b), "kid": "bob"}, None, b"hello", RefKey.from_jwk(bob))
+        pubs = [gen.public_jwk(k) if k["kty"] != "oct" else k for k in (alice, bob)]
+        for order, entries in (("unencoded-first", [e_unenc, e_plain]), ("plain-first", [e_plain, e_unenc])):
+            tok = {"payload": text.decode(), "signatures": entries}
+            base = Base("general", tok, [alice, bob], text, [{"alg": alg_a, "protected_octets": None, "header": None, "kid": "alice"}, {"alg": alg_b, "protected_octets": None, "header": None, "kid": "bob"}], b64=False)
+            allow = [alg_name(alg_a), alg_name(alg_b)]
+            for ep_name, ep in (("jws.deserialize_json", lambda t, k, a: j.jws.deserialize_json(copy.deepcopy(t), k, algorithms=a)),
+                                ("rfc7797.deserialize_json", lambda t, k, a: j.rfc7797.deserialize_json(copy.deepcopy(t), k, algorithms=a)),
+                                ("rfc7797.deserialize_json[rfc7797 registry]", lambda t, k, a: j.rfc7797.deserialize_json(copy.deepcopy(t), k, registry=j.rfc7797.JWSRegistry(algorithms=a))),
+                                ("jws.deserialize_json[rfc7797 registry]", lambda t, k, a: j.jws.deserialize_json(copy.deepcopy(t), k, registry=j.rfc7797.JWSRegistry(algorithms=a)))):
+                for kform in ("keyset", "callable"):
+                    ks = j.KeySet([j.key(x) for x in pubs])
+                    jkey = ks if kform == "keyset" else (lambda obj, ks=ks: ks)
+                    mon.judge(base, "mixed-b64-general", f"{order}/{kform}", tok, jkey, ref_resolver(pubs), allow, ep_name, ep, expect_reject=True)
+            ctx.count("mixed_b64_tokens")
+
+
 def crit_nonstrict_cases(mon: Monitor, ctx):
     """RFC 7797 token (b64:false, crit) whose payload text is itself base64url, offered to the plain RFC 7515 entry points
     configured with strict_check_header=False: the signed payload is the text, so returning the decoded octets would be wrong."""
@@ -953,6 +980,7 @@ def plan(tier):
     items.append(("confusion", "", 0))
     items.append(("crit-nonstrict", "", 0))
     items.append(("keyset-rotation", "", 0))
+    items.append(("mixed-b64", "", 0))
     items.append(("many-signatures", "", 0))
     items.append(("long-run", "", 0))
     for a in ("PS256", "RS256", "PS512", "PS384"):
@@ -1020,6 +1048,9 @@ def run_shard(ctx):
             continue
         if alg == "keyset-rotation":
             keyset_rotation_cases(mon, ctx)
+            continue
+        if alg == "mixed-b64":
+            mixed_b64_cases(mon, ctx)
             continue
         if alg == "many-signatures":
             many_signatures_cases(mon, ctx)
